@@ -30,6 +30,16 @@ def _post_(i, fmap, pos=0):
             fmap[dst] = fmap(dst) - 1
 
 
+# return stack:
+# -------------
+
+
+def _rstack_(n):
+    # entry n of the return stack (21-bit words) is kept in the 3-byte cell
+    # at offset 3*n of the "rstack" segment (memory cells are whole bytes)
+    return mem(n * 3, 24, seg="rstack")
+
+
 # ------------------------------------------------------
 
 
@@ -461,7 +471,7 @@ def i_NOP(i, fmap):
 
 def i_POP(i, fmap):
     fmap[pc] = fmap(pc) + i.length
-    fmap[tos] = fmap(mem(stkptr, 21, seg="rstack"))
+    fmap[tos] = fmap(_rstack_(stkptr))[0:21]
     fmap[stkptr] = fmap(stkptr - 1)
 
 
@@ -470,7 +480,7 @@ def i_PUSH(i, fmap):
     fmap[pc] = npc
     # a mem key's address is evaluated by the map itself: it gets the unevaluated
     # address, and before stkptr changes
-    fmap[mem(stkptr + 1, 21, seg="rstack")] = npc
+    fmap[_rstack_(stkptr + 1)] = npc.zeroextend(24)
     fmap[stkptr] = fmap(stkptr + 1)
     fmap[tos] = npc
 
@@ -488,7 +498,7 @@ def i_RESET(i, fmap):
 
 def i_RETFIE(i, fmap):
     fmap[pc] = fmap(tos)
-    fmap[tos] = fmap(mem(stkptr, 21, seg="rstack"))
+    fmap[tos] = fmap(_rstack_(stkptr))[0:21]
     fmap[stkptr] = fmap(stkptr - 1)
     # FIXME! GIE/GIEH & PEIE/GIEL flag should be affected
     s = i.operands[0]
@@ -500,14 +510,14 @@ def i_RETFIE(i, fmap):
 
 def i_RETLW(i, fmap):
     fmap[pc] = fmap(tos)
-    fmap[tos] = fmap(mem(stkptr, 21, seg="rstack"))
+    fmap[tos] = fmap(_rstack_(stkptr))[0:21]
     fmap[stkptr] = fmap(stkptr - 1)
     fmap[wreg] = i.imm
 
 
 def i_RETURN(i, fmap):
     fmap[pc] = fmap(tos)
-    fmap[tos] = fmap(mem(stkptr, 21, seg="rstack"))
+    fmap[tos] = fmap(_rstack_(stkptr))[0:21]
     fmap[stkptr] = fmap(stkptr - 1)
     s = i.operands[0]
     if s == 1:
